@@ -9,6 +9,7 @@ import (
 	"os/exec"
 	"path/filepath"
 	"sort"
+	"strconv"
 	"strings"
 	"sync"
 	"sync/atomic"
@@ -116,6 +117,8 @@ func c17Inputs() []c17Input {
 			c17Input{fn, "longest ordinary tag", d255},
 			c17Input{fn, "shortest oversize tag", d256},
 			c17Input{fn, "sixteen", "0123456789abcdef"},
+			c17Input{fn, "@65536", "a message of exactly 64 KiB"},
+			c17Input{fn, "@131072", "a message of exactly 128 KiB"},
 		)
 	}
 
@@ -217,6 +220,33 @@ func mistake() {
 	defer func() { _ = recover() }()
 	secp256k1.HashToScalar([]byte("x"), nil)
 }
+
+// a message written "@N" stands for N bytes of a fixed pattern (exact multiples of 64 KiB among them)
+func expand(s string) string {
+	if len(s) < 2 || s[0] != '@' {
+		return s
+	}
+
+	n := 0
+	for i := 1; i < len(s); i++ {
+		n = n*10 + int(s[i]-'0')
+	}
+
+	b := make([]byte, n)
+	for i := range b {
+		b[i] = byte(i*13 + 7)
+	}
+
+	return string(b)
+}
+
+var _ = func() int {
+	for i := range inputs {
+		inputs[i][1] = expand(inputs[i][1])
+	}
+
+	return 0
+}()
 
 func call(fn string, m, d []byte) string {
 	switch fn {
@@ -438,6 +468,17 @@ func c17Parent(p *mon.Prop, pc *mon.ParentCtx) *mon.Aggregate {
 
 	expected := make([]string, len(inputs))
 	for i, in := range inputs {
+		if len(in.Msg) > 1 && in.Msg[0] == '@' {
+			n, _ := strconv.Atoi(in.Msg[1:])
+			b := make([]byte, n)
+
+			for k := range b {
+				b[k] = byte(k*13 + 7)
+			}
+
+			in.Msg = string(b)
+		}
+
 		switch in.Fn {
 		case "H2G":
 			pt, _ := oracle.HashToCurve([]byte(in.Msg), []byte(in.Dst))
